@@ -26,7 +26,8 @@ ID = "C19"
 RULE = ("case = one record/preset check, one generated configuration file (input mode x subset of optional keys x values), or one "
         "single-fault configuration; distinct = descriptor digest; non-trivial = configuration omitting or providing at least one "
         "optional key / preset declaring at least one value different from the defaults")
-ASSUMPTIONS = ["pathline inputs are generated as .npz files only (SCSV pathline inputs are an unexplored corner: the parser hands every path to numpy.load)",
+ASSUMPTIONS = ["thorough tier: the 2^14 subsets of optional [parameters]/[output] keys are enumerated exhaustively for the velocity-gradient and pathline input modes (values per key still sampled); quick tier samples subsets",
+               "pathline inputs are generated as .npz files only (SCSV pathline inputs are an unexplored corner: the parser hands every path to numpy.load)",
                "the mesh input mode re-uses the repository's own corner2d VTU mesh and final-location SCSV"]
 TOLERANCES = {"values": "exact"}
 REQUIRED_MONITORS = ["default_record", "preset_values_as_declared", "config_parses", "config_defaults_and_values",
@@ -62,7 +63,19 @@ def gen_cases(ctx):
     if ctx.shard == 0:
         yield {"kind": "default_record"}
         yield {"kind": "presets"}
-    n = ctx.share(ctx.scale(500, 120000))
+    if ctx.tier == "thorough":
+        # exhaustive over all 2^8 x 2^6 subsets of the optional [parameters] / [output] keys for the two cheap input modes
+        idx = 0
+        for mode in ("calc", "paths"):
+            for pmask in range(1 << 8):
+                for omask in range(1 << 6):
+                    idx += 1
+                    if idx % ctx.nshards != ctx.shard:
+                        continue
+                    rng = ctx.rng(7, idx)
+                    yield {"kind": "config", "mode": mode, "seed": int(rng.integers(1 << 31)), "pmask": pmask, "omask": omask,
+                           "tables": int(rng.integers(4)), "name": bool(rng.integers(2)), "strain_final": bool(rng.integers(2))}
+    n = ctx.share(ctx.scale(500, 60000))
     for i in range(n):
         rng = ctx.rng(1, i)
         mode = ["calc", "calc", "paths", "paths", "mesh"][int(rng.integers(5))] if ctx.tier == "quick" else ["calc", "paths", "mesh"][i % 3]
